@@ -8052,20 +8052,14 @@ impl<'a> Parser<'a> {
 
     pub fn parse_string_values(&mut self) -> Result<Vec<String>, ParserError> {
         self.expect_token(&Token::LParen)?;
-        let mut values = Vec::new();
-        loop {
-            let next_token = self.next_token();
+        let values = self.parse_comma_separated(|parser| {
+            let next_token = parser.next_token();
             match next_token.token {
-                Token::SingleQuotedString(value) => values.push(value),
-                _ => self.expected("a string", next_token)?,
+                Token::SingleQuotedString(value) => Ok(value),
+                _ => parser.expected("a string", next_token),
             }
-            let next_token = self.next_token();
-            match next_token.token {
-                Token::Comma => (),
-                Token::RParen => break,
-                _ => self.expected(", or }", next_token)?,
-            }
-        }
+        })?;
+        self.expect_token(&Token::RParen)?;
         Ok(values)
     }
 
